@@ -747,7 +747,6 @@ var propDispatch = vk.Register(&vk.Prop[Case]{
 
 func TestDispatch(t *testing.T) { propDispatch.Run(t) }
 
-
 // fillPattern turns a route pattern from the pools into a concrete path (crude textual filling; any result is a valid
 // request because the oracle decides matching independently).
 func fillPattern(t *rapid.T, p string) string {
